@@ -105,34 +105,62 @@ def rule_x2(F):
         r.missing("codegen::testing::run_tests")
         return r
     h = rb.hir["value"]
-    # final if failures == 0 { Ok } else { Err }
-    final = hir.strip(h).get("expr")
-    ok = False
-    if final and final.get("k") == "if":
-        c = final["cond"]
-        lits = [n.get("v") for n in hir.walk(c) if n.get("k") == "lit"]
-        ok = (c.get("k") == "bin" and c.get("op") == "==" and names(c) == {"failures"} and lits == [0]
-              and "Ok" in str(hir.result_desc(final["then"])) and "Err" in str(hir.result_desc(final.get("else"))))
-        if c.get("k") == "bin" and c.get("op") == "!=" and names(c) == {"failures"} and lits == [0]:
-            ok = "Err" in str(hir.result_desc(final["then"])) and "Ok" in str(hir.result_desc(final.get("else")))
-    r.inst("aggregate result", {"ok": ok})
-    if not ok:
-        r.bad(rb.path, "aggregate", relfile(rb.file), rb.line, "run_tests must return Ok exactly when failures == 0")
-    # counting
+    # counting: the counter(s) incremented exactly on the not-Ok side of `test.run(..) == Ok(())`
     cnt_ok = False
+    fail_counters = set()
     run_calls = [c for c in hir.nodes(h, "mcall") if c["m"] == "run"]
+
+    def incs(node):
+        out = set()
+        for n in hir.nodes(node or {}, "assignop"):
+            l = hir.res_local(hir.peel_refs(n["lhs"]))
+            if n.get("op") == "+=" and l is not None:
+                out.add(l)
+        return out
     for iff in hir.nodes(h, "if"):
         c = iff["cond"]
         if not any(x["m"] == "run" for x in hir.nodes(c, "mcall")):
             continue
         op = c.get("op")
+        if op not in ("==", "!="):
+            continue
         okside = iff["then"] if op == "==" else iff.get("else")
         failside = iff.get("else") if op == "==" else iff["then"]
         sides_ok = any("Ok" in str(hir.result_desc(x)) for x in (c.get("a"), c.get("b")) if x)
+        fail_counters = incs(failside) - incs(okside)
+        cnt_ok = bool(sides_ok and fail_counters)
+    # final: Ok exactly when the failure counter is zero (if / match form)
+    final = hir.strip(h).get("expr")
+    ok = False
 
-        def incs(node, var):
-            return [n for n in hir.nodes(node or {}, "assignop") if n.get("op") == "+=" and names(n["lhs"]) == {var}]
-        cnt_ok = bool(sides_ok and incs(failside, "failures") and not incs(okside, "failures"))
+    def is_counter(e):
+        return hir.res_local(hir.peel_refs(hir.strip(e))) in fail_counters
+
+    def is_zero(e):
+        e = hir.strip(e)
+        return e.get("k") == "lit" and e.get("v") == 0
+    if final and final.get("k") == "if" and fail_counters:
+        c = hir.strip(final["cond"])
+        if c.get("k") == "bin":
+            a, bb, op = c.get("a"), c.get("b"), c.get("op")
+            if is_zero(a) and is_counter(bb):
+                a, bb = bb, a
+                op = {"<": ">", ">": "<", "<=": ">=", ">=": "<="}.get(op, op)
+            if is_counter(a) and is_zero(bb):
+                t, e = str(hir.result_desc(final["then"])), str(hir.result_desc(final.get("else")))
+                if op in ("==", "<="):
+                    ok = "Ok" in t and "Err" in e
+                elif op in ("!=", ">"):
+                    ok = "Err" in t and "Ok" in e
+    elif final and final.get("k") == "match" and fail_counters and is_counter(final["e"]):
+        rows = hir.table(final)
+        zero = [rw for rw in rows if rw["alts"] in (["0"], ["lit:0"]) and not rw.get("guard")]
+        rest = [rw for rw in rows if rw["alts"] == ["_"] and not rw.get("guard")]
+        ok = (len(rows) == 2 and len(zero) == 1 and len(rest) == 1 and rows[0] is zero[0]
+              and "Ok" in str(zero[0]["result"]) and "Err" in str(rest[0]["result"]))
+    r.inst("aggregate result", {"ok": ok, "failure_counters": len(fail_counters)})
+    if not ok:
+        r.bad(rb.path, "aggregate", relfile(rb.file), rb.line, "run_tests must return Ok exactly when failures == 0")
     r.inst("failure counting", {"ok": cnt_ok, "run_call_sites": len(run_calls)})
     if not cnt_ok:
         r.bad(rb.path, "counting", relfile(rb.file), rb.line, "failures must be incremented exactly when a test's result is not Ok(())")
